@@ -67,7 +67,8 @@ EXPECT_PROBES = ["side_ctl", "side_sw", "fault_len", "fault_type",
                  "victim_before_hello", "close_callback_raised",
                  "victim_mid_handshake_features",
                  "victim_mid_handshake_barrier",
-                 "victim_mid_handshake_barrier_x"]
+                 "victim_mid_handshake_barrier_x",
+                 "victim_switch_has_second_connection"]
 
 PORT = G.PORT
 
@@ -142,6 +143,8 @@ def gen_plan(seed, tier):
          # damaged stream arrives (features / barrier reply outstanding);
          # "barrier_x" = it starts with a well-formed BARRIER_REPLY that
          # carries somebody else's xid
+         "second_controller": (side == "sw"
+                               and Rng(mix(seed, "2nd")).chance(0.15)),
          "mid_handshake": (r.pick(["features", "barrier", "barrier_x",
                                    "barrier_x"])
                            if side == "ctl" and r.chance(0.2) else None)}
@@ -436,6 +439,23 @@ def _drive_sw(sim, plan, known, hit):
     got = e.take()
     if not got or got[0]["type"] != W.HELLO:
       raise S.SimAbort("harness", "no hello from a switch")
+  v2 = None
+  if cfg.get("second_controller") and not early:
+    # the victim switch is given a second control connection (a fail-over
+    # controller) while the first stays open: what arrives on the first is
+    # still the first's business
+    from pox.datapaths import OpenFlowWorker
+    n0 = len(world.accepted)
+    w2 = OpenFlowWorker.begin(loop=world.loop, addr="127.0.0.1", port=6633,
+                              switch=world.switches[0], max_retry_delay=16)
+    sim.settle()
+    if len(world.accepted) == n0 + 1:
+      from worlds.sw import End
+      v2 = End(world.accepted[-1])
+      v2.send(W.enc_hello(0))
+      sim.drain()
+      v2.take()
+      sim.probes["victim_switch_has_second_connection"] += 1
   sx = [0x7000]
   sent_sib = {id(e): [] for e in sibs}
 
@@ -500,6 +520,9 @@ def _drive_sw(sim, plan, known, hit):
                       "closed")
   decl, rest, bad = _declared(stream_all)
   replies = v.take()
+  if v2 is not None:
+    # (which of its connections a switch answers on is not C10's business)
+    replies = replies + v2.take()
   closed = v.eof
   sim.probes["victim_closed" if closed else "victim_survived"] += 1
   dx = set(x for t, x, _ in decl)
